@@ -837,6 +837,8 @@ class NodeFor:
                     else:
                         for i in range(len(self.identifiers)):
                             environment.remove(self.identifiers[i])
+            except CklRuntimeError:
+                raise       # an error of the loop body, not of the input
             except Exception:
                 raise CklRuntimeError(
                     ValueString("ERROR"), "Cannot read from input", self.pos
